@@ -327,14 +327,14 @@ def configs(tier):
             (n, p, L, ph)
             for n in (1, 2, 3)
             for p in (1, 2, 3, 4)
-            for L in range(3)
+            for L in range(4)
             for ph in ("PhaseSpaceFactor", "PhaseSpaceFactorAbs", "PhaseSpaceFactorComplex")
-            if (n, p) in ((1, 1), (2, 2), (3, 1), (1, 4), (2, 3)) or (L == 0 and ph == "PhaseSpaceFactor" and n * p <= 6)
+            if ((n, p) in ((1, 1), (2, 2), (3, 1), (1, 4), (2, 3)) and L <= 2) or ((n, p) in ((1, 1), (2, 2)) and L == 3) or (L == 0 and ph == "PhaseSpaceFactor" and n * p <= 6)
         ]
     for kind, n, p in grid:
         out.append({"name": f"param:{kind}:n={n}:poles={p}", "level": "param", "kind": kind, "n": n, "n_poles": p})
     for n, p, L, ph in rel:
-        out.append({"name": f"param:rel:n={n}:poles={p}:L={L}:{ph}", "level": "param", "kind": "rel", "n": n, "n_poles": p, "L": L, "phsp": ph})
+        out.append({"name": f"param:rel:n={n}:poles={p}:L={L}:{ph}", "level": "param", "kind": "rel", "n": n, "n_poles": p, "L": L, "phsp": ph, "config_timeout": 900})
     return out
 
 
@@ -366,7 +366,7 @@ def main():
         bounds={
             "n_channels": "1..2 quick, 1..3 thorough",
             "n_poles": "1..4",
-            "L": "0..2 (the sign lemmas for L >= 3 are not decided within the time limits)",
+            "L": "0..2; L = 3 for (n_channels, n_poles) in {(1,1), (2,2)} in the thorough tier (beyond that the sign lemmas / radicand side obligations are not decided within the limits)",
             "phase-space variants": "PhaseSpaceFactor, ...Abs, ...Complex (real above threshold)",
         },
         assumptions=[
@@ -376,7 +376,7 @@ def main():
             "unitarity of the parametrised T is obtained by instantiating the level-1 statement (all real symmetric K) "
             "with the level-2 K through the level-3 equality",
         ],
-        outside=["poles below a threshold (width becomes complex)", "n_channels > 3, n_poles > 4, L > 2", "floating point"],
+        outside=["poles below a threshold (width becomes complex)", "n_channels > 3, n_poles > 4, L > 3", "floating point"],
     )
 
 
